@@ -121,12 +121,16 @@ Derivable(ts0) ==
   Len(ts0) > 0 /\ (Len(ts) + 1) \in p3
 
 ---------------------------------------------------------------------------
-\* Static rules of property C14: 0 <= begin <= end for literal bounds of equal unit; bound identifiers are
+\* Static rules of property C14: 0 <= begin <= end for literal bounds (as durations); bound identifiers are
 \* declared constants (declared through the API: `consts`, or by a const declaration in the text)
 DeclaredConsts(ts) == {ts[i+2].v : i \in {i \in 1..(Len(ts) - 2) : ts[i].k = "const" /\ ts[i+2].k = "id"}}
 IntervalStarts(ts) == {i \in 1..Len(ts) : Interval(ts, i) # {}}
 BoundTok(ts, i) == ts[i]                                   \* first bound token of the interval starting at i
 SecondBoundPos(ts, i) == LET j == CHOOSE j \in IvTime(ts, i+1) : Tok(ts, j) \in {":", ","} IN j + 1
+UExp(u) == CASE u = "s" -> 9 [] u = "ms" -> 6 [] u = "us" -> 3 [] OTHER -> 0
+P10(d) == CASE d = 0 -> 1 [] d = 3 -> 1000 [] d = 6 -> 1000000 [] OTHER -> 1000000000
+\* a * 10^ea <= b * 10^eb on naturals, without leaving 32 bits
+DurLE(a, ea, b, eb) == IF ea >= eb THEN a <= b \div P10(ea - eb) ELSE (a + P10(eb - ea) - 1) \div P10(eb - ea) <= b
 StaticOK(ts, consts) ==
   \A i \in IntervalStarts(ts) :
     LET b1 == ts[i+1]
@@ -136,7 +140,11 @@ StaticOK(ts, consts) ==
         u2 == IF Tok(ts, p2+1) = "unit" THEN ts[p2+1].v ELSE "" IN
     /\ (b1.k = "id" => b1.v \in consts \cup DeclaredConsts(ts))
     /\ (b2.k = "id" => b2.v \in consts \cup DeclaredConsts(ts))
-    /\ ((b1.k = "num" /\ b2.k = "num" /\ (u1 = u2 \/ u1 = "" \/ u2 = "")) => (0 <= b1.v /\ b1.v <= b2.v))
+    \* durations: a unit written on one bound only applies to both; no unit at all: plain numbers
+    /\ ((b1.k = "num" /\ b2.k = "num") =>
+          LET e1 == UExp(IF u1 = "" THEN u2 ELSE u1)
+              e2 == UExp(IF u2 = "" THEN u1 ELSE u2) IN
+          0 <= b1.v /\ DurLE(b1.v, e1, b2.v, e2))
 
 ---------------------------------------------------------------------------
 \* The parser proper, for one assertion:  (id =)? expression ;?
